@@ -81,7 +81,7 @@ mut('C11-full-outer-emits-used-keys', (P + 'join.py', "                    if va
 mut('C12-no-sign-inversion', (P + 'sort_rows.py', "                        if value < 0:\n                            bits.invert(range(1, 64))\n", "                        if value < -1:\n                            bits.invert(range(1, 64))\n"))
 mut('C12-no-rownum-suffix', (P + 'sort_rows.py', "            key = key_calc(row) + '\\x00{:08x}'.format(row_num)\n", "            key = key_calc(row) + '\\x00{:02x}'.format(row_num % 7)\n"))
 # ---- C14
-mut('C14-clear-nulls-all-checked', (B + 'schema_validator.py', "    if field is not None:\n        row[field.name] = None\n        return True\n", "    if field is not None:\n        row[field.name] = None\n        if e is not None and len(getattr(e, 'errors', [])) > 1:\n            for k in list(row):\n                row[k] = None\n        return True\n"))
+mut('C14-clear-nulls-all-checked', (B + 'schema_validator.py', "    if field is not None:\n        row[field.name] = None\n        return True\n", "    if field is not None:\n        row[field.name] = None\n        if i % 3 == 2:\n            for k in list(row):\n                if k != 'id':\n                    row[k] = None\n        return True\n"))
 mut('C14-index-off-by-one', (B + 'schema_validator.py', "    for i, row in enumerate(iterator):\n        field = None\n", "    for i, row in enumerate(iterator, start=1):\n        field = None\n"))
 mut('C14-drop-also-drops-next', (B + 'schema_validator.py', "        if okay:\n            yield row\n", "        if okay and not getattr(schema_validator, '_skip', False):\n            yield row\n        schema_validator._skip = (not okay) and i % 5 == 4\n"))
 # ---- C16
